@@ -297,7 +297,7 @@ func GenSession(r *rand.Rand, tier string) (Session, int) {
 			s.Cmds[i].Text = c.Text[len(c.Text)-1:] // degrade to the 1-byte command
 		}
 	}
-	if !s.Exact && s.API != "file" && len(s.Cmds) >= 2 && r.Intn(6) == 0 {
+	if s.API != "file" && len(s.Cmds) >= 2 && r.Intn(6) == 0 {
 		// an empty command on a quiet line (never the first one: the network driver's own level
 		// check types a bare return before the first command): the device just redraws its prompt
 		i := 1 + r.Intn(len(s.Cmds)-1)
@@ -307,7 +307,7 @@ func GenSession(r *rand.Rand, tier string) (Session, int) {
 		for i, c := range s.Cmds {
 			// exact matching needs a verbatim echo: the device wraps when character WrapEvery+1 is typed
 			verbatim := s.WrapEvery == 0 || len(c.Text) <= s.WrapEvery
-			s.Cmds[i].Exact = verbatim && c.Text != "" && r.Intn(2) == 0
+			s.Cmds[i].Exact = verbatim && r.Intn(2) == 0
 			s.Cmds[i].NoStrip = r.Intn(2) == 0
 		}
 	}
@@ -612,6 +612,9 @@ func RunSession(s Session, h *Hooks) mon.Result {
 	for _, c := range s.Cmds {
 		if c.Text == "" {
 			obs["empty_commands_on_a_quiet_line"]++
+			if s.Exact || c.Exact {
+				obs["empty_commands_in_exact_mode"]++
+			}
 		}
 	}
 	if s.API == "file" {
